@@ -798,8 +798,10 @@ class H2Connection:
                 priority_exclusive
             )
 
+        # The priority fields take five bytes of the first HEADERS frame.
         frames = stream.send_headers(
-            headers, self.encoder, end_stream
+            headers, self.encoder, end_stream,
+            first_frame_overhead=(5 if priority_present else 0)
         )
 
         if priority_present:
